@@ -33,7 +33,7 @@ func TestMain(m *testing.M) { rep.Main(m, ID) }
 type Case struct {
 	Choice yamlgen.Choice `json:"choice"`
 	Fields []string       `json:"fields"`
-	Kind   int            `json:"kind"` // 0: backtick command substitution (whole value), 1: appended to the default value, 2: ${VAR} reference, 3: forward env reference + substitution, 4/5: substitution embedded in an unquoted token (alone / appended as NAME=pre-`cmd`.suf)
+	Kind   int            `json:"kind"` // 0: backtick command substitution (whole value), 1: appended to the default value, 2: ${VAR} reference, 3: forward env reference + substitution, 4/5: substitution embedded in an unquoted token (alone / appended as NAME=pre-`cmd`.suf), 6: quoted argument + substitution outside the quotes, 7: assigning expansion ${NAME:=word}
 	Entry  string         `json:"entry,omitempty"`
 }
 
@@ -175,6 +175,14 @@ func render(e *envT, c Case) []byte {
 			return def + " `touch " + e.canaryPath(i) + "`"
 		case 2:
 			return def + "${VERIF_CANARY_REF}"
+		case 6:
+			// a quoted argument next to a substitution outside the quotes (a
+			// shell-words style splitter that honours backticks would run it)
+			return def + " \"quoted arg\" `touch " + e.canaryPath(i) + "` 'single'"
+		case 7:
+			// the ASSIGNING expansion form: a loader that implements ${NAME:=word}
+			// exports NAME when it is unset — the name is deliberately not planted
+			return def + fmt.Sprintf("${VERIF_UNSET_%d:=leak}", i) + fmt.Sprintf(" ${VERIF_UNSET_%d:-dflt}", i+100)
 		case 4, 5:
 			// a substitution EMBEDDED in an unquoted token (report-`cmd`.csv): the
 			// command is a blank-free path to a script that leaves the canary
@@ -227,7 +235,7 @@ func plantSentinels(data []byte) {
 	}
 	seen := map[string]bool{}
 	for _, id := range identRe.FindAllString(string(data), -1) {
-		if seen[id] || len(id) > 40 {
+		if seen[id] || len(id) > 40 || strings.HasPrefix(id, "VERIF_UNSET_") {
 			continue
 		}
 		seen[id] = true
@@ -360,7 +368,7 @@ func TestCatalogue(t *testing.T) {
 	for _, ch := range maximalChoices() {
 		for _, f := range yamlgen.Fields(ch) {
 			nFields[f] = true
-			for kind := 0; kind < 6; kind++ {
+			for kind := 0; kind < 8; kind++ {
 				i++
 				if i%nsh != shard {
 					continue
@@ -384,7 +392,7 @@ func TestCatalogue(t *testing.T) {
 	}
 	rep.Label("positive-control-ok")
 	if shard == 0 {
-		rep.ExhaustiveSpace(fmt.Sprintf("catalogue of %d string-valued fields x %d entry points x 6 canary kinds over 3 maximal definitions", len(nFields), len(entries)))
+		rep.ExhaustiveSpace(fmt.Sprintf("catalogue of %d string-valued fields x %d entry points x 8 canary kinds over 3 maximal definitions", len(nFields), len(entries)))
 		rep.Sample(map[string]any{"field": "steps[0].preconditions[0].condition", "entry": "DAGStore.UpdateSpec", "yaml": string(render(e, Case{Choice: ch, Fields: []string{"steps[0].preconditions[0].condition"}, Kind: 0}))[:600]})
 	}
 }
@@ -398,7 +406,7 @@ func TestProp(t *testing.T) {
 		if n > len(sel) {
 			n = len(sel)
 		}
-		c := Case{Choice: ch, Fields: sel[:n], Kind: rapid.IntRange(0, 5).Draw(t, "kind")}
+		c := Case{Choice: ch, Fields: sel[:n], Kind: rapid.IntRange(0, 7).Draw(t, "kind")}
 		c.Entry = rapid.SampledFrom(entries).Draw(t, "entry").name
 		evalCase(t, c, "random", false)
 	})
